@@ -12,6 +12,7 @@ import OpmVerif.Proofs.FieldPropsIndep
 import OpmVerif.Proofs.FieldPropsOperR
 import OpmVerif.Proofs.FieldPropsReentry
 import OpmVerif.Proofs.FieldPropsStatus
+import OpmVerif.Proofs.FieldPropsTran
 
 namespace OpmVerif.Props.C12
 open OpmVerif.FieldProps
@@ -460,5 +461,114 @@ example : boxTrack sampleD (Box.global sampleD)
     Box.global sampleD ∧
     Box.update sampleD sampleB noBox = some sampleB ∧
     Box.update sampleD sampleB ⟨some 2, none, none, none, none, none⟩ = some ⟨1, 0, 0, 2, 2, 2⟩ := by decide
+
+/-! ## Transmissibility calculators (`TranCalculator` action lists, `apply_tran`) and SCHEDULE multipliers -/
+
+section TranCalc
+open OpmVerif.FieldProps.Tran
+
+/-- **An empty action list is the identity** and reports `tran_active = false`: with no TRAN edit the array
+the simulator hands in comes back unchanged. -/
+theorem tran_empty_list_is_identity {α : Type} [Scalar α] (m : Mode) (A0 A1 : List Bool) (x data : List α) (d : Nat) :
+    applyTran ([] : List (Action α)) x = x ∧
+    (observeTran m A0 A1 ([] : Rec α) data d).active = false ∧
+    (observeTran m A0 A1 ([] : Rec α) data d).out = compress A1 data := by
+  refine ⟨rfl, rfl, ?_⟩
+  cases m <;> rfl
+
+/-- **Applying the recorded list = folding the keywords in input order.**  For every keyword list of the EDIT
+section (any length, any boxes, TRAN records mixed with records of ordinary arrays, the same keyword any number of
+times), every direction `d` and every array `x` handed in: if the section is accepted and `cs` is the recorded
+list, then `apply_tran` with `cs` equals `effect`: keyword after keyword in INPUT ORDER, each applying exactly the
+actions it recorded itself (`effect` is defined by recursion on the keyword list, left to right). -/
+theorem tran_recorded_list_is_fold_in_input_order {α : Type} [Scalar α] (m : Mode) (D : Dims) (A : List Bool)
+    (C : Consts α) (ks : List (TKw α)) (cs : Rec α) (h : scanTran m D A C ks = some cs) (d : Nat) (x : List α) :
+    applyTran (calcOf cs d) x = effect m D A C d ([], Box.global D) ks x := by
+  unfold scanTran at h
+  cases hf : foldRecs (tkwStep m D A C) ([], Box.global D) ks with
+  | none => rw [hf] at h; exact absurd h (by simp)
+  | some r =>
+    rw [hf] at h
+    cases h
+    exact scan_is_fold m D A C d ks _ r hf x
+
+/-- the action lists compose: what was recorded first is applied first -/
+theorem tran_actions_apply_in_recording_order {α : Type} [Scalar α] (a b : List (Action α)) (x : List α) :
+    applyTran (a ++ b) x = applyTran b (applyTran a x) :=
+  applyTran_append a b x
+
+/-- **Cell by cell**: `apply_tran` keeps the length of the array handed in, and its cell `i` is the value handed in
+for cell `i` taken through the actions in recording order, each action looking only at cell `i` of ITS scratch
+array (`apply_action` if that scratch cell has a value, nothing otherwise).  No other cell is read or written. -/
+theorem tran_cell_by_cell {α : Type} [Scalar α] (acts : List (Action α)) (x : List α) (i : Nat) :
+    (applyTran acts x).length = x.length ∧
+    (applyTran acts x)[i]? = (x[i]?).map fun v => acts.foldl (fun v a => cellStep a i v) v :=
+  ⟨applyTran_length acts x, applyTran_getElem? acts x i⟩
+
+/-- **Keywords that name no TRAN array record nothing**: BOX / ENDBOX and operation keywords all of whose records
+name ordinary arrays leave every calculator empty, whatever their boxes — so edits of ordinary arrays interleaved
+with TRAN edits never show up in `apply_tran`. -/
+theorem tran_untouched_by_other_keywords {α : Type} [Scalar α] (m : Mode) (D : Dims) (A : List Bool) (C : Consts α)
+    (ks : List (TKw α)) (hk : ∀ k ∈ ks, k.namesTran = false) (cs : Rec α) (h : scanTran m D A C ks = some cs) :
+    cs = [] := by
+  unfold scanTran at h
+  cases hf : foldRecs (tkwStep m D A C) ([], Box.global D) ks with
+  | none => rw [hf] at h; exact absurd h (by simp)
+  | some r =>
+    rw [hf] at h
+    cases h
+    exact no_tran_keyword_records_nothing m D A C ks hk _ r hf
+
+/-- **The loops that fill the scratch arrays and the SCHEDULE multipliers refine**: the three kernels the new
+models run over a box — the scalar kernel of a TRAN operation record into its scratch array, `assign_deck` of a
+TRANX/Y/Z data keyword, `multiply_deck` of a SCHEDULE-section multiplier — computed on the active-only arrays
+through `Box::index_list` equal the compression of the map over the global grid (instances of `op_refines_box`,
+which holds for every kernel). -/
+theorem tran_scratch_and_schedule_loops_refine {α : Type} [Scalar α] (D : Dims) (A : List Bool) (b : Box)
+    (hv : b.Valid D) (tgt : Arr α) (ht : tgt.length = A.length) (op : ScalarOp) (v : α) (deck : Arr α) :
+    boxApply .impl D A (scalarKernel op v) b (compress A tgt) (compress A tgt) =
+      (boxApply .ref D A (scalarKernel op v) b tgt tgt).map (compress A) ∧
+    boxApply .impl D A (assignKernel deck) b (compress A tgt) (compress A tgt) =
+      (boxApply .ref D A (assignKernel deck) b tgt tgt).map (compress A) ∧
+    boxApply .impl D A (multiplyKernel deck) b (compress A tgt) (compress A tgt) =
+      (boxApply .ref D A (multiplyKernel deck) b tgt tgt).map (compress A) :=
+  ⟨op_refines_box D A _ b hv tgt tgt ht ht, op_refines_box D A _ b hv tgt tgt ht ht,
+   op_refines_box D A _ b hv tgt tgt ht ht⟩
+
+/-- **SCHEDULE multipliers restart from one**: `handle_schedule_keywords` with no data keyword leaves every
+multiplier array that exists at 1 (status `valid_default`), and creates none. -/
+theorem schedule_without_keywords_resets_to_one {α : Type} [Scalar α] (m : Mode) (D : Dims) (A : List Bool) (one : α)
+    (s : List (String × Arr α)) :
+    schedApply m D A one s [] = some (smap (fun x : Arr α => x.map fun _ => (⟨.validDefault, one⟩ : Cell α)) s) := rfl
+
+-- non-vacuity: 3×1×1 grid, middle cell inactive; ADD TRANX 5 over the grid, then in ONE keyword
+-- `MULTIPLY TRANX 2 (cells 1-2)`, `MULTIPLY MULTX 7 (cell 3)` (ordinary), `MULTIPLY TRANX 3` (all-defaulted record:
+-- the box of the record before, cell 3), then a TRANX data keyword `1* 1* 9`; TRANY untouched.
+def tD : Dims := ⟨3, 1, 1⟩
+def tA : List Bool := [true, false, true]
+def tC : Consts Int := ⟨1, 1000000, -1000000, 1⟩
+def tKs : List (TKw Int) :=
+  [.oper .add [⟨0, 5, noBox⟩],
+   .oper .mul [⟨0, 2, ⟨some 1, some 2, none, none, none, none⟩⟩, ⟨3, 7, ⟨some 3, some 3, none, none, none, none⟩⟩, ⟨0, 3, noBox⟩],
+   .data 0 [⟨.emptyDefault, 0⟩, ⟨.emptyDefault, 0⟩, ⟨.deckValue, 9⟩]]
+
+example : (runTran .impl tD tA tA tC tKs [10, 20, 30]).map (fun o => o.map fun t => (t.active, t.actions.map (·.2), t.out)) =
+    some [(true, ["TRANX0", "TRANX1", "TRANX2"], [30, 9]), (false, [], [10, 30]), (false, [], [10, 30])] := by
+  decide +kernel
+example : (runTran .ref tD tA tA tC tKs [10, 20, 30]).map (fun o => o.map fun t => t.out) =
+    (runTran .impl tD tA tA tC tKs [10, 20, 30]).map (fun o => o.map fun t => t.out) := by
+  decide +kernel
+-- the fold of `tran_recorded_list_is_fold_in_input_order` on this instance, and its hypothesis
+example : (scanTran .impl tD tA tC tKs).isSome = true ∧
+    effect .impl tD tA tC 0 ([], Box.global tD) tKs [10, 30] = [30, 9] := by decide +kernel
+example : ∀ k ∈ ([.box noBox, .oper .mul [⟨3, 7, noBox⟩], .endbox] : List (TKw Int)), k.namesTran = false := by decide
+-- SCHEDULE: MULTX exists with values 4, 5; `MULTX 2 1* 3` twice multiplies 1·2·2 and 1·3·3 into the active cells
+example : schedApply .impl tD tA (1 : Int) [("MULTX", [⟨.deckValue, 4⟩, ⟨.deckValue, 5⟩])]
+    [.data "MULTX" [⟨.deckValue, 2⟩, ⟨.validDefault, 1⟩, ⟨.deckValue, 3⟩],
+     .data "MULTX" [⟨.deckValue, 2⟩, ⟨.validDefault, 1⟩, ⟨.deckValue, 3⟩]] =
+    some [("MULTX", [⟨.deckValue, 4⟩, ⟨.deckValue, 9⟩])] := by decide +kernel
+example : Box.Valid tD (Box.global tD) := by unfold Box.Valid; decide
+
+end TranCalc
 
 end OpmVerif.Props.C12
